@@ -2856,6 +2856,113 @@ def restore_class_aliases(trees, stats):
     stats['class_aliases_restored'] = n
 
 
+def sink_extra_params(trees, stats):
+  """A private function that takes one more (trailing) parameter than its reference version, where every call site in the module computes the
+  argument by the same expression over the other arguments (`self._H(d, d.get(K, None))`): the computation goes back to the first statement of
+  the callee (`p = d.get(K, None)` with the parameter in place of the argument) and the call sites lose the argument.  The expression is
+  evaluated at the same moment either way (last argument, immediately before the body starts)."""
+  b = load_baseline()
+  inv = b.get('inventory', {})
+  n = 0
+  for rel, tree in trees.items():
+    known = set(inv.get(rel, []))
+    if not known:
+      continue
+    cur = collect(tree)
+    for q, (f, cont, cls) in cur.items():
+      if q not in known or not isinstance(f, ast.FunctionDef):
+        continue
+      bf = base_fn(b, rel, q)
+      if bf is None:
+        continue
+      a, ba = f.args, bf.args
+      if a.vararg or a.kwarg or a.kwonlyargs or ba.vararg or ba.kwarg or ba.kwonlyargs or a.defaults or len(a.args) != len(ba.args) + 1:
+        continue
+      static = any(ast.unparse(d) == 'staticmethod' for d in f.decorator_list)
+      names = [x.arg for x in a.args]
+      p_new = names[-1]
+      if any(isinstance(x, ast.Name) and x.id == p_new and isinstance(x.ctx, (ast.Store, ast.Del)) for x in ast.walk(f)):
+        continue
+      fname = q.split('.')[-1]
+      if not fname.startswith('_') or fname.startswith('__') and fname.endswith('__'):
+        continue
+      sites = []
+      bad = False
+      for g in ast.walk(tree):
+        if isinstance(g, ast.Call):
+          fn_ = g.func
+          hit = (isinstance(fn_, ast.Attribute) and fn_.attr == fname) or (isinstance(fn_, ast.Name) and fn_.id == fname and cls is None)
+          if hit:
+            sites.append(g)
+        elif isinstance(g, ast.Attribute) and g.attr == fname and not any(isinstance(c, ast.Call) and c.func is g for c in ast.walk(tree)):
+          bad = True       # taken as a value somewhere
+      if bad or not sites:
+        continue
+      off = 0 if (static or cls is None) else 1
+      exprs = set()
+      ok = True
+      drops = []
+      for c in sites:
+        if c.keywords or any(isinstance(x, ast.Starred) for x in c.args) or len(c.args) != len(names) - off:
+          ok = False
+          break
+        mapping = {}
+        for pn, arg in zip(names[off:-1], c.args[:-1]):
+          if isinstance(arg, ast.Name):
+            mapping[arg.id] = pn
+          elif isinstance(arg, ast.Attribute):
+            mapping[ast.unparse(arg)] = pn
+        e = copy.deepcopy(c.args[-1])
+        if isinstance(e, ast.Name) and e.id not in mapping:
+          # a local computed by the statement just before the call and used for nothing else
+          tname = e.id
+          pre = None
+          for blk in _blocks_of(tree):
+            for i_, st_ in enumerate(blk):
+              if i_ > 0 and any(x is c for x in ast.walk(st_)):
+                p0 = blk[i_ - 1]
+                if (isinstance(p0, ast.Assign) and len(p0.targets) == 1 and isinstance(p0.targets[0], ast.Name) and p0.targets[0].id == tname):
+                  pre = (blk, p0)
+          uses_t = [x for x in ast.walk(tree) if isinstance(x, ast.Name) and x.id == tname]
+          if pre is not None:
+            encl = [g_ for g_ in ast.walk(tree) if isinstance(g_, FN) and any(x is c for x in ast.walk(g_))]
+            inner_uses = [x for x in ast.walk(encl[-1]) if isinstance(x, ast.Name) and x.id == tname] if encl else uses_t
+            if len(inner_uses) == 2:
+              e = copy.deepcopy(pre[1].value)
+              drops.append(pre)
+        free = set(x.id for x in ast.walk(e) if isinstance(x, ast.Name))
+        # names the callee cannot see
+        mod_names = _bound_names(tree)
+        if any(fr not in mapping and fr not in mod_names and fr not in ('self', 'cls', 'None', 'True', 'False') for fr in free):
+          ok = False
+          break
+        if off == 0 and 'self' in free:
+          ok = False
+          break
+
+        class R(ast.NodeTransformer):
+          def visit_Name(self, x):
+            return ast.copy_location(ast.Name(id=mapping[x.id], ctx=x.ctx), x) if x.id in mapping else x
+        e = R().visit(e)
+        exprs.add(ast.unparse(e))
+        proto = e
+      if not ok or len(exprs) != 1:
+        continue
+      # rewrite
+      for c in sites:
+        c.args = c.args[:-1]
+      for blk, p0 in drops:
+        if any(x is p0 for x in blk):
+          blk.remove(p0)
+      f.args.args = f.args.args[:-1]
+      k = 1 if (f.body and isinstance(f.body[0], ast.Expr) and isinstance(f.body[0].value, ast.Constant) and isinstance(f.body[0].value.value, str)) else 0
+      f.body.insert(k, ast.Assign(targets=[ast.Name(id=p_new, ctx=ast.Store())], value=proto, lineno=f.lineno, col_offset=f.col_offset))
+      n += 1
+    ast.fix_missing_locations(tree)
+  if n:
+    stats['params_sunk'] = n
+
+
 def restore_package(trees, stats):
   """Before the per-module normalisation (on the raw trees)."""
   try:
@@ -2905,6 +3012,10 @@ def restore_package(trees, stats):
     except Exception as e:
       stats['absorb_error'] = repr(e)
   restore_renamed(trees, stats)
+  try:
+    sink_extra_params(trees, stats)
+  except Exception as e:
+    stats['sink_params_error'] = repr(e)
   try:
     push_down_new_base_methods(trees, stats)
   except Exception as e:
